@@ -181,7 +181,20 @@ func runC03(r *Rng, n int, replay string) {
 			}
 			for vi, v := range views {
 				if bad := treeInvariant(v, cands); bad != "" {
-					c.fail(fmt.Sprintf("[%s, view %d] after step %d (%s -> %s): %s", l.name, vi, i, o, a, bad), l.id+":"+o.Kind+":invariant")
+					tag := l.id
+					switch l.id {
+					case "mount":
+						// the known defect of this layer: removing or renaming a mount point or a directory that holds one
+						covers := func(p string) bool { return p == "." || p == "a" || p == "ab" || p == "ab/b" }
+						if (o.Kind == "remove" || o.Kind == "removeall" || o.Kind == "rename") && (covers(o.P) || (o.Kind == "rename" && covers(o.Q))) {
+							tag = "mount:covers-point"
+						}
+					case "sub":
+						if (o.Kind == "remove" || o.Kind == "removeall") && o.P == "." {
+							tag = "sub:view-root" // the known defect: the view removes its own root
+						}
+					}
+					c.fail(fmt.Sprintf("[%s, view %d] after step %d (%s -> %s): %s", l.name, vi, i, o, a, bad), tag+":"+o.Kind+":invariant")
 					break
 				}
 			}
